@@ -186,7 +186,7 @@ theorem lock_then_only_burnable (ord : List Group → List Group) (vals : List V
       unfold lock
       by_cases hpa : s'.paused = true
       · exact ⟨.err .paused, by simp [hpa]⟩
-      · refine ⟨.err .other, ?_⟩
+      · refine ⟨.err .pegged, ?_⟩
         have : s'.paused = false := by simpa using hpa
         simp only [this, hsym, hin, Bool.false_eq_true, if_false, if_true]
     · exact (hs rfl).elim
